@@ -50,9 +50,9 @@ Edges == {<<>>, <<32>>, <<9, 9>>}
 LineStyles == {[cs |-> cs, lead |-> e, trail |-> e, sep |-> <<r, <<32>>, r>>, plus |-> <<p, FALSE, p>>, nd |-> <<12, n, 12>>] :
                  cs \in 1..4, e \in Edges, r \in Runs, p \in BOOLEAN, n \in {4, 12}}
 SpellMols == {[atoms |-> <<a>>, bonds |-> <<>>] : a \in {b \in SmallAtoms("xyz") : NumSpellValid(b.c[2], 4)}}
-Styles == {[clead |-> e, ctrail |-> e, finalnl |-> nl, lines |-> <<ls>>] : e \in {<<>>, <<32, 9>>}, nl \in BOOLEAN, ls \in LineStyles}
+Styles == {[clead |-> ls.lead, ctrail |-> ls.sep[1], finalnl |-> nl, lines |-> <<ls>>] : nl \in BOOLEAN, ls \in LineStyles}
 
-FileMols == {m \in SdfMols : Len(m.atoms) = 1 /\ m.atoms[1].z = 17 /\ m.atoms[1].c[1] = m.atoms[1].c[2]}
+FileMols == {m \in SdfMols : Len(m.atoms) = 1 /\ m.atoms[1].z = 17 /\ m.atoms[1].c[1] = m.atoms[1].c[2] /\ m.atoms[1].c[2] = m.atoms[1].c[3]}
             \cup {m \in SdfMols : Len(m.atoms) = 2 /\ m.atoms[1] = m.atoms[2]}
 FileSeqs == {<<a>> : a \in FileMols} \cup {<<a, b>> : a \in FileMols, b \in FileMols}
 FileStyles == {[term |-> TRUE, data |-> TRUE], [term |-> TRUE, data |-> FALSE], [term |-> FALSE, data |-> TRUE], [term |-> FALSE, data |-> FALSE]}
